@@ -8,7 +8,32 @@ P = {'id': 'C03',
               'mixed_absent',
               'zip_get_record',
               'zip_absent',
-              'simplezip_fragment_lossless'],
+              'simplezip_fragment_lossless',
+              'simplezip_get_record',
+              'simplezip_absent',
+              'store_refines_every_history',
+              'mem_store_refines_spec',
+              'zero_history_refines_spec',
+              'plain_store_refines_spec',
+              'plain_history_refines_spec',
+              'plain_history_no_reopen_refines_spec',
+              'plain_ids_not_reused_for_live',
+              'plain_open_existing',
+              'wrapper_refines_spec',
+              'wrapper_history_refines_spec',
+              'huffman_frame_lossless',
+              'zstd_over_memory_history_refines_spec',
+              'huffman_over_memory_history_refines_spec',
+              'pass_over_memory_history_refines_spec',
+              'huffman_over_zstd_over_memory_history_refines_spec',
+              'cached_refines_inner',
+              'cached_removed_not_served',
+              'cached_over_memory_history_refines_spec',
+              'cached_caches_lawful',
+              'dictzip_refines_spec',
+              'dictzip_history_refines_spec',
+              'dictzip_removed_not_served',
+              'dictzip_standins_lawful'],
  'trusted': ['modelled (M+S): src/blob_store/memory.rs; src/blob_store/mixed_len.rs (bitmap rank as count_occ-style spec rank, UintVecMin0 offsets at '
              'value level); src/blob_store/zip_offset_builder.rs + zip_offset.rs + sorted_uint_vec.rs (definitions, bit-exact file image compared on every run); '
              'src/blob_store/simple_zip.rs and zero_length.rs (definitions)',
